@@ -1151,13 +1151,15 @@ def eval_tree(t, leaf_shapes, rng, attr_vals, shapes_out):
     return out
 
 
-def sample_case(spec, rng, hints=None, tries=60):
+def sample_case(spec, rng, hints=None, tries=60, force=None):
     """returns dict(leaf_shapes, leaf_data, attr_vals{k: {role: value}}, node_shapes) or None"""
     trees, nleaf = spec_tree(spec)
     kinds = spec["leaves"]
     for attempt in range(tries):
         prop = propose_shapes(rng, spec["f"]) if spec["t"] == "A" else None
-        if hints and (attempt % 2 == 1 or attempt > tries // 2):
+        if force is not None and attempt < tries // 2:
+            shapes = [list(s) for s in force]
+        elif hints and (attempt % 2 == 1 or attempt > tries // 2):
             shapes = [list(s) for s in rng.choice(hints)]
         elif prop is not None and all(leaf_fixed_shape(k) is None for k in kinds):
             shapes = prop[:len(kinds)]
@@ -1330,6 +1332,51 @@ def candidates_B(rng, n):
     return out
 
 
+def candidates_B_combinators():
+    """hand-enumerated chain shapes with every combinator in an inner position"""
+    out = []
+
+    def add(*names, leaves=None):
+        chain = []
+        for nm_ in names:
+            v = 0
+            if ":" in nm_:
+                nm_, v = nm_.split(":")
+                v = int(v)
+            chain.append({"f": nm_, "v": v})
+        need, have = chain_arity(chain)
+        assert have == 1, (names, need, have)
+        out.append({"t": "B", "chain": chain, "leaves": leaves or ["dF"] * need})
+    for c2 in ("swap", "dig1", "bury1"):
+        for f in ("subtract", "divide", "matmul", "outer_subtract", "concatenate"):
+            add(f, c2)
+        add("tanh", "subtract", c2)
+        add("subtract", c2, "exp")
+        add("sum", "divide", c2, "fabs")
+        add("subtract", c2, "multiply")
+    for f in ("multiply", "subtract", "matmul", "maximum"):
+        add(f, "dup")
+    add("subtract", "dup", "exp")
+    add("divide", "dup", "reshape")
+    add("sin", "add", "dup", "transpose:1")
+    add("where", "dup3")
+    add("subtract", "multiply", "dup3")
+    for c3 in ("dig2", "bury2"):
+        add("where", c3)
+        add("subtract", "multiply", c3)
+        add("add", "divide", c3, "exp")
+        add("sum", "subtract", "maximum", c3)
+    for c4 in ("dig3", "bury3"):
+        add("subtract", "multiply", "add", c4)
+        add("divide", "where", c4)
+    add("subtract", "swap", "swap")
+    add("subtract", "dig1", "bury1")
+    add("where", "bury2", "dig2")
+    add("subtract", "swap", leaves=["dD", "dF"])
+    add("divide", "dup", leaves=["dD"])
+    return out
+
+
 def _rand_tree(rng, depth, shape_style, leaf_counter, reuse, prim=True):
     """shape_style: 'left' (view operands only at position 0), 'chain' (at most one view operand), 'any'"""
     def new_leaf():
@@ -1403,7 +1450,9 @@ def core_specs():
     c.append({"t": "C", "tree": N("matmul", N("tanh", L(0)), L(1)), "leaves": ["dF", "dF"]})
     c.append({"t": "C", "tree": N("sum", N("matmul", N("transpose", L(0)), L(1)), v=0), "leaves": ["dF", "dF"]})
     c.append({"t": "C", "tree": N("flatten", N("concatenate", N("exp", L(0)), L(1))), "leaves": ["dF", "dF"]})
-    c.append({"t": "C", "tree": N("where", N("isfinite", L(0)), L(1), L(2)), "leaves": ["dF", "dF", "dF"]})
+    # composite view (one call = several primitive views, found by the probe): extraction only, fixed broadcasting shapes in the first case
+    c.append({"t": "C", "tree": N("where", L(0), L(1), L(2)), "leaves": ["dF", "dF", "dF"], "graph": False, "force_shapes": [[4, 3], [3], [1, 3]]})
+    c.append({"t": "C", "tree": N("mean", N("fabs", L(0))), "leaves": ["dF"], "graph": False})
     c.append({"t": "C", "tree": N("cumsum", N("transpose", N("fabs", N("flip", L(0))))), "leaves": ["dD"]})
     # binary ufunc over a view (the library's own composition tests: multiply_add, reduce_add_tanh, ...)
     c.append({"t": "C", "tree": N("add", N("multiply", L(0), L(1)), L(2)), "leaves": ["dF", "dF", "dF"]})
@@ -1434,8 +1483,31 @@ def core_specs():
     return c
 
 
+def _strip_k(o):
+    if isinstance(o, dict):
+        return {k: _strip_k(v) for k, v in o.items() if k != "k"}
+    if isinstance(o, list):
+        return [_strip_k(v) for v in o]
+    return o
+
+
 def spec_key(spec):
-    return json.dumps(spec, sort_keys=True)
+    """canonical text of a spec (instance numbers are derived data)"""
+    return json.dumps(_strip_k(spec), sort_keys=True)
+
+
+def spec_base_key(spec):
+    """key without the fall-back flags set by the probe (graph/nested = false)"""
+    return spec_key({k: v for k, v in spec.items() if not (k in ("graph", "nested") and v is False)})
+
+
+def functor_info():
+    """phase-1 facts about the functors (primitive = one view call is one graph node)"""
+    return load_supported().get("functors", {})
+
+
+def is_composite(tree, finfo):
+    return any(not finfo.get(n["f"], {}).get("primitive", False) for n in tree_nodes(tree))
 
 
 def load_supported():
@@ -1607,14 +1679,28 @@ def _probe_main(argv):
         CAT[n].primitive = bool(inf.get("primitive"))
     rng = random.Random(20260926)
     core = core_specs()
-    cands = core + candidates_A() + candidates_B(rng, nB) + candidates_C(rng, nC)
+    cands = core + candidates_A() + candidates_B(rng, nB) + candidates_C(rng, nC) + candidates_B_combinators()
     uniq = {}
     for s in cands:
         uniq.setdefault(spec_key(s), s)
     cands = list(uniq.values())
-    sys.stderr.write("probing %d candidates\n" % len(cands))
+    prev_ok, prev_rej = {}, {}
+    if os.path.exists(SUPPORTED) and "--fresh" not in argv:
+        old = json.load(open(SUPPORTED))
+        for e in old.get("supported", []):
+            prev_ok[spec_base_key(e["spec"])] = e
+            prev_ok[spec_key(e["spec"])] = e
+        for e in old.get("rejected", []):
+            prev_rej[spec_key(e["spec"])] = e
+    sys.stderr.write("probing %d candidates (%d verdicts kept from the existing file)\n" % (
+        len(cands), sum(1 for c in cands if spec_key(c) in prev_ok or spec_key(c) in prev_rej)))
 
     def one(i):
+        k_ = spec_key(cands[i])
+        if k_ in prev_ok:
+            return i, prev_ok[k_]["spec"], prev_ok[k_]["hints"], ""
+        if k_ in prev_rej:
+            return i, None, None, prev_rej[k_]["why"]
         spec = dict(cands[i])
         hints = _hints_for(spec, i)
         if not hints:
@@ -1635,9 +1721,9 @@ def _probe_main(argv):
     with ThreadPoolExecutor(max_workers=jobs) as ex:
         for k, (i, sp, hints, err) in enumerate(ex.map(one, range(len(cands)))):
             if sp is not None:
-                ok.append({"spec": sp, "hints": hints, "orig": spec_key(cands[i])})
+                ok.append({"spec": _strip_k(sp), "hints": hints, "orig": spec_key(cands[i])})
             else:
-                rejected.append({"spec": cands[i], "why": err})
+                rejected.append({"spec": _strip_k(cands[i]), "why": err})
             if k % 25 == 0:
                 sys.stderr.write("  %d/%d supported so far %d\n" % (k, len(cands), len(ok)))
     core_keys = {spec_key(s) for s in core}
